@@ -628,6 +628,78 @@ func checkPath(p *pathBuilder, what func() string) (*driftResult, *mc.Verdict) {
 	return res, nil
 }
 
+// farBody: "the writer tracks the position the decoder will reconstruct" also
+// far from the origin, where one unit in the last place of a float64 is
+// 5e-7: ten thousand curves after a moveto to the edge of the 32-bit range.
+// The decoder adds the three deltas of a curve one after the other; the writer
+// has to round in the same places, or the two positions part by up to an ulp
+// per curve, all in the same direction for suitable deltas.  (The exact
+// reconstruction of the other drift families assumes positions below 2^17 and
+// is not used here; the reference is the library's own decoder.)
+var farStarts = [][2]float64{{2147483647, 0}, {-2147483648, 5}, {1073741824, -1073741824}, {16777216, 16777216}, {0, 2147483647}} // integers: a fractional delta of this size is outside the property (|x| < 10^6)
+var farCurves = [][6]float64{
+	{1.0 / 3, 1, 1.0 / 3, 1, 1.0 / 3, -2},
+	{0.1, 0.7, 0.2, -0.3, 0.7, -0.4},
+	{-1.0 / 3, 1.0 / 7, -1.0 / 3, 1.0 / 7, -1.0 / 3, -2.0 / 7},
+	{0, 1.0 / 3, 2.0 / 3, 1.0 / 3, 1.0 / 3, 0}, // vhcurveto
+	{1.0 / 3, 0, 1.0 / 3, 2.0 / 3, 0, 1.0 / 3}, // hvcurveto
+}
+
+func farBody(c *mc.Ctx, item int) mc.Verdict {
+	st := farStarts[item%len(farStarts)]
+	cv := farCurves[item/len(farStarts)]
+	what := fmt.Sprintf("moveto (%v, %v) followed by 10000 curves with the deltas %v", st[0], st[1], cv)
+	if !shimAvailable {
+		return mc.Pass("n/a:needs-the-charstring-decoder-shim (a charstring of this length does not fit a PostScript string)", false)
+	}
+	g := &type1.Glyph{WidthX: 500}
+	x, y := st[0], st[1]
+	g.MoveTo(x, y)
+	want := []float64{x, y}
+	for i := 0; i < 10000; i++ {
+		x1, y1 := x+cv[0], y+cv[1]
+		x2, y2 := x1+cv[2], y1+cv[3]
+		x3, y3 := x2+cv[4], y2+cv[5]
+		g.CurveTo(x1, y1, x2, y2, x3, y3)
+		want = append(want, x1, y1, x2, y2, x3, y3)
+		x, y = x3, y3
+	}
+	code, err := encodeGlyph(g)
+	if err != nil {
+		return mc.Fail("C20:drift:encode-error", what+": "+err.Error())
+	}
+	lg, err := shimDecode(code)
+	c.Steps(2)
+	if err != nil {
+		return mc.Fail("C20:drift:library-decoder-rejects", what+": "+err.Error())
+	}
+	i, worst := 0, 0.0
+	for _, cmd := range lg.Cmds {
+		for _, a := range cmd.Args {
+			if i < len(want) {
+				d := math.Abs(a - want[i])
+				if d > worst {
+					worst = d
+				}
+				if d > 1.0/214+1e-6 {
+					v := mc.Fail("C20:drift:far-from-origin", fmt.Sprintf("%s: coordinate %d (point %d) requested %v, the decoder reconstructs %v: off by %.6g > 1/214 = %.6g", what, i, i/2, want[i], a, d, 1.0/214))
+					v.Render = what
+					return v
+				}
+			}
+			i++
+		}
+	}
+	if i != len(want) {
+		return mc.Fail("C20:drift:command-mismatch", fmt.Sprintf("%s: %d coordinates requested, the decoder yields %d", what, len(want), i))
+	}
+	v := mc.Pass(errClass(worst), true)
+	if c.Render() {
+		v.Render = fmt.Sprintf("%s: worst deviation %.3g", what, worst)
+	}
+	return v
+}
+
 func errClass(m float64) string {
 	switch {
 	case m == 0:
@@ -1405,6 +1477,10 @@ func main() {
 			fams = append(fams, creepFamily(budget))
 			fams = append(fams, contoursFamily(budget))
 			fams = append(fams, afterFailureFamily(budget))
+			fams = append(fams, mc.Family{
+				Name: "drift-far-from-origin", Items: len(farStarts) * len(farCurves), Budget: budget, Body: farBody,
+				Rule: fmt.Sprintf("item = start point %v x curve deltas %v: a moveto to the start point followed by 10,000 such curves (all three curve operators), encoded by the library and decoded by the library's decoder (export shim): every coordinate within 1/214 of the requested one; non-trivial = all", farStarts, farCurves),
+			})
 			fams = append(fams, mc.Family{
 				Name: "drift-long-paths", Items: numLetters * len(formats), Budget: budget,
 				Rule: "item = one (delta, kind) x file format: a path of 10,000 such segments; encoder -> exact reconstruction and library decoder on the full path (format index 0), and Font.Write -> Read and -> independent decoder in each format (on the longest prefix whose charstring fits the 65535-byte PostScript string limit): every absolute coordinate within 1/214 of the requested one; non-trivial = all",
